@@ -35,7 +35,7 @@ from props import c12
 from vlib.core import SRC, Ctx, src_sha
 
 # cost bound B = N (d+1)^2 for the kernel-checked grids; measured: ~0.33 us * d per unit (vm_compute, BigZ)
-B_QUICK = 500_000
+B_QUICK = 300_000
 B_THOROUGH = 12_000_000
 TOL_INT = 1e-9
 TOL_SPHERE = 1e-13
@@ -344,6 +344,27 @@ def run(ctx: Ctx):
         for deg, size in tabs[f"{P}_DEGREES"].items():
             grids.append((meth, dirn, deg, size, size * (deg + 1) ** 2))
     grids.sort(key=lambda g: (-g[4], g[0], g[2]))
+    # safety valve for a machine shared with other jobs: the kernel work (estimated cpu seconds, measured model
+    # 0.45 us * d per unit incl. parsing) must fit the tier's budget on this run's share of the 16 cores; B is lowered
+    # if it does not.  The verdict does not depend on B, only the list of kernel-covered grids does (it is reported).
+    try:
+        load = os.getloadavg()[0]
+    except OSError:
+        load = 0.0
+    share = 16.0 if load < 8 else max(1.0, 16.0 * 16.0 / (16.0 + load))
+    cpu_budget = share * (50.0 if ctx.quick else 800.0)
+    est_cpu = lambda g: g[4] * max(g[2], 8) * 0.45e-6
+    acc, B_eff = 0.0, B
+    for g in sorted(grids, key=lambda g: g[4]):
+        if g[4] > B:
+            break
+        if acc + est_cpu(g) > cpu_budget:
+            B_eff = g[4] - 1
+            break
+        acc += est_cpu(g)
+    if B_eff < B:
+        ctx.notes.append(f"load average {load:.1f}: kernel bound lowered from B={B} to {B_eff} for this run (estimated cpu {acc:.0f}s on a share of {share:.1f} cores)")
+    B = max(B_eff, 20_000)
     under = [g for g in grids if g[4] <= B]
     above = [g for g in grids if g[4] > B]
     ctx.count("grids_constructible", len(grids))
@@ -358,7 +379,7 @@ def run(ctx: Ctx):
             jobs[(g[0], g[2])] = (g[0], g[2], g[3], g[2])
         est = lambda g: g[4] * 4e-9  # seconds of one worker for the full-degree float64 sweep (measured)
         pool = [g for g in above if est(g) <= 25.0]
-        budget, pick = 200.0, []
+        budget, pick = 100.0, []
         for g in ctx.rng.sample(pool, len(pool)):
             if est(g) <= budget:
                 budget -= est(g)
@@ -402,97 +423,7 @@ def run(ctx: Ctx):
                   "lines": [len(p), len(w)], "sha": src_sha(p.tobytes().hex() + w.tobytes().hex())}])
         info[(meth, deg)] = {"file": fname, "tag": tag, "s": s, "sw": sw, "size": size, "dirn": dirn, "p": p, "w": w, "cost": cost}
 
-    # ---------------- prove
-    phase["gen"] = round(time.time() - t_sw - phase["sweep"], 1)
-    t_ph = time.time()
-    ctx.copy_coq("C02")
-    status = ctx.coq_build(timeout_per_file=1500)
-    phase["coq_build"] = round(time.time() - t_ph, 1)
-    t_ph = time.time()
-    ctx.register_props(status)
-    okgrids, badgrids = [], []
-    for key, gi in info.items():
-        ok = status.get(gi["file"], False)
-        ctx.add_obligation(f"grid_exact_{gi['tag']}", ok, gi["file"])
-        (okgrids if ok else badgrids).append(key)
-        ctx.case(("kernel", key), traces=0)
-    libs_ok = all(status.get(f, False) for f in ("C02_model.v", "C02_legendre.v", "C02_morph.v", "C02_sums.v", "C02_proofs.v", "C02_gen.v"))
-
-    # ---------------- cover theorem: grid_ok_sound instantiated on exactly the grids that were checked
-    if libs_ok and okgrids:
-        order = sorted(okgrids, key=lambda k: ([m for m, _, _, _ in c12.METHODS].index(k[0]), k[1]))
-        req = " ".join(info[k]["file"][:-2] for k in order)
-        stm, prf = [], []
-        for k in order:
-            gi = info[k]
-            stm.append(f"  grid_exact {k[1]} {natlit(gi['size'])} (real_pts {gi['s']} ps_{gi['tag']}) "
-                       f"(real_wts mode_{k[0]} {gi['sw']} {natlit(gi['size'])} ws_{gi['tag']})")
-            prf.append(f"(grid_ok_sound_lemma _ _ _ _ _ _ _ grid_exact_{gi['tag']})")
-        body = " /\\\n".join(stm)
-        term = prf[-1]
-        for t in reversed(prf[:-1]):
-            term = f"(conj {t}\n {term})"
-        txt = ("(* generated on every run: the real-number statement of C02 for exactly the grids whose kernel check succeeded *)\n"
-               "From Coq Require Import Reals ZArith List.\nFrom Bignums Require Import BigZ.\n"
-               f"From P Require Import C02_model C02_gen C02_sums C02_proofs {req}.\n"
-               f"Theorem covered_grids_exact :\n{body}.\nProof. exact {term}. Qed.\nPrint Assumptions covered_grids_exact.\n")
-        ok, out = ctx.coq_run("C02_cover_props.v", txt, timeout=900)
-        ctx.logs["C02_cover_props.v"] = out
-        ctx.register_props({**status, "C02_cover_props.v": ok})
-    phase["cover"] = round(time.time() - t_ph, 1)
-    t_ph = time.time()
-    ctx.cov["covered_grids"] = {m: sorted(k[1] for k in okgrids if k[0] == m) for m, _, _, _ in c12.METHODS}
-
-    # ---------------- correspond: AngularGrid(...) against the model, inside Coq, for every grid under B
-    from grid.angular import AngularGrid
-
-    cases, meta = [], []
-    for key in okgrids:
-        meth, deg = key
-        gi = info[key]
-        with warnings.catch_warnings():
-            warnings.simplefilter("ignore")
-            try:
-                g = AngularGrid(degree=deg, method=meth, cache=False)
-                ip, iw = np.array(g.points, dtype=np.float64), np.array(g.weights, dtype=np.float64)
-                attrs = (int(g.degree), int(g.size))
-            except Exception as e:  # noqa: BLE001
-                ctx.fail("corr_grid", f"built:{meth}:{deg}", type(e).__name__, f"AngularGrid(degree={deg}, method='{meth}') raised {type(e).__name__}: {e}",
-                         {"reproduce": f"AngularGrid(degree={deg}, method='{meth}', cache=False)"})
-                continue
-        ctx.case(("corr", key), traces=len(iw))
-        why = None
-        if attrs != (deg, gi["size"]) or ip.shape != (gi["size"], 3) or iw.shape != (gi["size"],):
-            why = f"(degree,size)={attrs}, points {ip.shape}, weights {iw.shape}; expected ({deg},{gi['size']})"
-        else:
-            try:
-                fr = [Fraction(float(v)) * (1 << gi["s"]) for v in ip.ravel()]
-                if any(f.denominator != 1 for f in fr):
-                    why = "points are not the stored points (not representable at the file's binary scale)"
-                swi, WI = dyadic_ints(iw)
-            except ValueError as e:
-                why = str(e)
-        if why is not None:
-            meta.append((key, why))
-            cases.append("false")
-            continue
-        P3 = [(int(fr[3 * i]), int(fr[3 * i + 1]), int(fr[3 * i + 2])) for i in range(gi["size"])]
-        cases.append(f"pts_match ps_{gi['tag']} {tlist(P3)} && "
-                     f"wts_match mode_{meth} {natlit(gi['size'])} {gi['sw']} {swi} ws_{gi['tag']} {blist(WI)}")
-        meta.append((key, None))
-    bad_corr = []
-    if cases:
-        req = " ".join(info[k]["file"][:-2] for k, _ in meta)
-        hdr = ("From Coq Require Import ZArith List Bool.\nFrom Bignums Require Import BigZ.\n"
-               f"From P Require Import C02_model C02_gen {req}.\nImport ListNotations.\nOpen Scope bigZ_scope.\n")
-        bad_corr = [meta[i] for i in ctx.coq_bool_cases("C02_corr", hdr, cases, shard=12)]
-    phase["correspond"] = round(time.time() - t_ph, 1)
-    t_ph = time.time()
-    for key, gi in list(info.items())[:2]:
-        ctx.sample({"grid": f"{key[0]}_{key[1]}", "N": gi["size"], "scale_points": gi["s"], "scale_weights": gi["sw"],
-                    "kernel_check": key in okgrids, "cost": gi["cost"]})
-
-    # ---------------- search results -> violations (with a kernel-checked refutation where possible)
+    # ---------------- search results -> violations (with a kernel-checked refutation where possible; compiled with the main build)
     def replay_of(meth, deg, size, v):
         rp = {"reproduce": f"g = AngularGrid(degree={deg}, method='{meth}', cache=False)", "file": f"{meth}_{deg}_{size}.npz"}
         rp.update(v)
@@ -559,12 +490,15 @@ def run(ctx: Ctx):
             else:
                 chk = None
             work = size * ((v["l"] if v["kind"] == "lm" else 0) + 1)
-            if chk is not None and libs_ok and work <= REFUTE_MAX:
-                txt = (GRID_HDR.replace("C02_model C02_gen", "C02_model C02_gen C02_sums C02_proofs") + data +
-                       f"Theorem {name} : {chk} = true.\nProof. vm_cast_no_check (eq_refl true). Qed.\n"
-                       f"Theorem {name[:-8]}_not_exact : ~ grid_exact {deg} {natlit(size)} (real_pts {s_} ps_{tag}) "
-                       f"(real_wts mode_{meth} {sw_} {natlit(size)} ws_{tag}).\nProof. exact {neg}. Qed.\n")
+            if chk is not None and work <= REFUTE_MAX:
+                txt = (GRID_HDR + data + f"Theorem {name} : {chk} = true.\nProof. vm_cast_no_check (eq_refl true). Qed.\n")
+                txt2 = (GRID_HDR.replace("C02_model C02_gen", f"C02_model C02_gen C02_sums C02_proofs C02_refuted_{tag}") +
+                        f"Theorem {name[:-8]}_not_exact : ~ grid_exact {deg} {natlit(size)} (real_pts {s_} ps_{tag}) "
+                        f"(real_wts mode_{meth} {sw_} {natlit(size)} ws_{tag}).\nProof. exact {neg}. Qed.\n")
                 refuted_files[f"C02_refuted_{tag}.v"] = (txt, name, key)
+                refuted_files[f"C02_refutedx_{tag}.v"] = (txt2, name[:-8] + "_not_exact", key)
+                ctx.write(f"C02_refuted_{tag}.v", txt)
+                ctx.write(f"C02_refutedx_{tag}.v", txt2)
                 thm = name
         except Exception as e:  # noqa: BLE001
             ctx.notes.append(f"refutation of {fname} not generated: {e}")
@@ -582,13 +516,148 @@ def run(ctx: Ctx):
         rp = replay_of(meth, deg, size, v)
         rp["kernel_refutation"] = thm
         ctx.fail(f"grid_exact_{meth}_{deg}", k, v["observed"], text, rp)
-    if refuted_files:
-        res = ctx.coq_run_many({n: t for n, (t, _, _) in refuted_files.items()}, timeout=1500)
-        for n, (_, name, key) in refuted_files.items():
-            ok, out = res[n]
-            ctx.add_obligation(name, ok, n)
-            if not ok:
-                ctx.logs[n] = out[-3000:]
+    # ---------------- prove
+    phase["gen"] = round(time.time() - t_sw - phase["sweep"], 1)
+    t_ph = time.time()
+    ctx.copy_coq("C02")
+    status = ctx.coq_build(timeout_per_file=150 if ctx.quick else 1200)
+    phase["coq_build"] = round(time.time() - t_ph, 1)
+    t_ph = time.time()
+    ctx.register_props(status)
+    okgrids, badgrids, timed_out = [], [], []
+    for key, gi in info.items():
+        ok = status.get(gi["file"], False)
+        log = ctx.logs.get(gi["file"], "")
+        if not ok and "Error" not in log and "skipped" not in log and key not in viol_by_grid:
+            # killed by the per-file timeout (no kernel verdict): the grid is simply not covered in this run
+            timed_out.append(key)
+            continue
+        ctx.add_obligation(f"grid_exact_{gi['tag']}", ok, gi["file"])
+        (okgrids if ok else badgrids).append(key)
+        ctx.case(("kernel", key), traces=0)
+    if timed_out:
+        ctx.notes.append("kernel check not finished within the per-file time limit (not covered in this run): " +
+                         ", ".join(f"{k[0]}_{k[1]}" for k in timed_out))
+    libs_ok = all(status.get(f, False) for f in ("C02_model.v", "C02_legendre.v", "C02_morph.v", "C02_sums.v", "C02_proofs.v", "C02_gen.v"))
+
+    # ---------------- cover theorem: grid_ok_sound instantiated on exactly the grids that were checked
+    if libs_ok and okgrids:
+        order = sorted(okgrids, key=lambda k: ([m for m, _, _, _ in c12.METHODS].index(k[0]), k[1]))
+        req = " ".join(info[k]["file"][:-2] for k in order)
+        stm, prf = [], []
+        for k in order:
+            gi = info[k]
+            stm.append(f"  grid_exact {k[1]} {natlit(gi['size'])} (real_pts {gi['s']} ps_{gi['tag']}) "
+                       f"(real_wts mode_{k[0]} {gi['sw']} {natlit(gi['size'])} ws_{gi['tag']})")
+            prf.append(f"(grid_ok_sound_lemma _ _ _ _ _ _ _ grid_exact_{gi['tag']})")
+        body = " /\\\n".join(stm)
+        term = prf[-1]
+        for t in reversed(prf[:-1]):
+            term = f"(conj {t}\n {term})"
+        txt = ("(* generated on every run: the real-number statement of C02 for exactly the grids whose kernel check succeeded *)\n"
+               "From Coq Require Import Reals ZArith List.\nFrom Bignums Require Import BigZ.\n"
+               f"From P Require Import C02_model C02_gen C02_sums C02_proofs {req}.\n"
+               f"Theorem covered_grids_exact :\n{body}.\nProof. exact {term}. Qed.\nPrint Assumptions covered_grids_exact.\n")
+        ok, out = ctx.coq_run("C02_cover_props.v", txt, timeout=900)
+        ctx.logs["C02_cover_props.v"] = out
+        ctx.register_props({**status, "C02_cover_props.v": ok})
+    phase["cover"] = round(time.time() - t_ph, 1)
+    t_ph = time.time()
+    ctx.cov["covered_grids"] = {m: sorted(k[1] for k in okgrids if k[0] == m) for m, _, _, _ in c12.METHODS}
+
+    # ---------------- the definition of Ylm (Coq, over R) against the library's own real spherical harmonics
+    try:
+        from grid.utils import convert_cart_to_sph, generate_real_spherical_harmonics
+        quads = [(1, 2, 2, 3), (2, -3, 6, 7), (-4, 4, -7, 9), (1, 4, 8, 9), (6, -2, -9, 11), (-6, -6, 7, 11), (2, 10, 11, 15), (12, -4, 3, 13)]
+        quads = quads[:3] if ctx.quick else quads
+        lmax_v = 5 if ctx.quick else 8
+        P_ = np.array([[a / d_, b / d_, c_ / d_] for a, b, c_, d_ in quads])
+        sph = convert_cart_to_sph(P_)
+        Yimpl = np.asarray(generate_real_spherical_harmonics(lmax_v, sph[:, 1], sph[:, 2]), dtype=np.float64)
+        tcases, tmeta = [], []
+        for i, (a, b, c_, d_) in enumerate(quads):
+            for l in range(lmax_v + 1):
+                for m in [0] + [s_ * k for k in range(1, l + 1) for s_ in (1, -1)]:
+                    row = l * l + (0 if m == 0 else (2 * m - 1 if m > 0 else 2 * abs(m)))
+                    v = Fraction(float(Yimpl[row, i]))
+                    am, neg = abs(m), ("true" if m < 0 else "false")
+                    goal = (f"Rabs (Ylm {l} (signed {am} {neg}) (IZR ({a}) / IZR {d_}) (IZR ({b}) / IZR {d_}) (IZR ({c_}) / IZR {d_}) "
+                            f"- (IZR ({v.numerator}) / IZR {v.denominator})) <= / 10 ^ 11")
+                    tac = (f"rewrite (Ylm_rational_lemma {l} {am} {neg} ({a}) ({b}) ({c_}) {d_} ltac:(lia) ltac:(intros; first [lia|discriminate]) ltac:(lia)); "
+                           f"ev_z; interval with (i_prec 90)")
+                    tcases.append((goal, tac))
+                    tmeta.append((quads[i], l, m, float(v)))
+                    ctx.case(("ylm", quads[i], l, m))
+        thdr = ("From Coq Require Import Reals ZArith Lia.\nFrom Interval Require Import Tactic.\n"
+                "From P Require Import C02_model C02_legendre C02_sums C02_proofs.\nOpen Scope R_scope.\n"
+                "Ltac ev_z := repeat match goal with\n"
+                "  | |- context [Hz ?l ?m ?n ?x ?y ?z ?d] => let h := eval vm_compute in (Hz l m n x y z d) in change (Hz l m n x y z d) with h\n"
+                "  | |- context [kappa_num ?l ?m] => let h := eval vm_compute in (kappa_num l m) in change (kappa_num l m) with h\n"
+                "  | |- context [kappa_den ?l ?m] => let h := eval vm_compute in (kappa_den l m) in change (kappa_den l m) with h end.\n")
+        for i in ctx.coq_tactic_cases("C02_ylm", thdr, tcases, shard=40, timeout=600):
+            q, l, m, v = tmeta[i]
+            ctx.fail("Ylm_definition", f"ylm:{q}:{l}:{m}", v,
+                     f"the Coq definition Ylm {l} {m} at the point {q[:3]}/{q[3]} is not within 1e-11 of "
+                     f"grid.utils.generate_real_spherical_harmonics ({v!r})", found_input=False)
+        ctx.sample({"ylm_validation": {"point": list(tmeta[7][0]), "l": tmeta[7][1], "m": tmeta[7][2], "library_value": tmeta[7][3]}})
+        ctx.count("ylm_definition_cases", len(tcases))
+    except ImportError as e:
+        ctx.fail("Ylm_definition", "ylm:import", type(e).__name__, f"grid.utils real spherical harmonics not importable: {e}", found_input=False)
+    phase["ylm"] = round(time.time() - t_ph, 1)
+    t_ph = time.time()
+
+    # ---------------- correspond: AngularGrid(...) against the model, inside Coq, for every grid under B
+    from grid.angular import AngularGrid
+
+    cases, meta = [], []
+    for key in okgrids:
+        meth, deg = key
+        gi = info[key]
+        with warnings.catch_warnings():
+            warnings.simplefilter("ignore")
+            try:
+                g = AngularGrid(degree=deg, method=meth, cache=False)
+                ip, iw = np.array(g.points, dtype=np.float64), np.array(g.weights, dtype=np.float64)
+                attrs = (int(g.degree), int(g.size))
+            except Exception as e:  # noqa: BLE001
+                ctx.fail("corr_grid", f"built:{meth}:{deg}", type(e).__name__, f"AngularGrid(degree={deg}, method='{meth}') raised {type(e).__name__}: {e}",
+                         {"reproduce": f"AngularGrid(degree={deg}, method='{meth}', cache=False)"})
+                continue
+        ctx.case(("corr", key), traces=len(iw))
+        why = None
+        if attrs != (deg, gi["size"]) or ip.shape != (gi["size"], 3) or iw.shape != (gi["size"],):
+            why = f"(degree,size)={attrs}, points {ip.shape}, weights {iw.shape}; expected ({deg},{gi['size']})"
+        else:
+            try:
+                fr = [Fraction(float(v)) * (1 << gi["s"]) for v in ip.ravel()]
+                if any(f.denominator != 1 for f in fr):
+                    why = "points are not the stored points (not representable at the file's binary scale)"
+                swi, WI = dyadic_ints(iw)
+            except ValueError as e:
+                why = str(e)
+        if why is not None:
+            meta.append((key, why))
+            cases.append("false")
+            continue
+        P3 = [(int(fr[3 * i]), int(fr[3 * i + 1]), int(fr[3 * i + 2])) for i in range(gi["size"])]
+        cases.append(f"pts_match ps_{gi['tag']} {tlist(P3)} && "
+                     f"wts_match mode_{meth} {natlit(gi['size'])} {gi['sw']} {swi} ws_{gi['tag']} {blist(WI)}")
+        meta.append((key, None))
+    bad_corr = []
+    if cases:
+        req = " ".join(info[k]["file"][:-2] for k, _ in meta)
+        hdr = ("From Coq Require Import ZArith List Bool.\nFrom Bignums Require Import BigZ.\n"
+               f"From P Require Import C02_model C02_gen {req}.\nImport ListNotations.\nOpen Scope bigZ_scope.\n")
+        bad_corr = [meta[i] for i in ctx.coq_bool_cases("C02_corr", hdr, cases, shard=12)]
+    phase["correspond"] = round(time.time() - t_ph, 1)
+    t_ph = time.time()
+    for key, gi in list(info.items())[:2]:
+        ctx.sample({"grid": f"{key[0]}_{key[1]}", "N": gi["size"], "scale_points": gi["s"], "scale_weights": gi["sw"],
+                    "kernel_check": key in okgrids, "cost": gi["cost"]})
+
+    # ---------------- kernel verdicts of the refutations generated before the build
+    for n, (_, name, key) in refuted_files.items():
+        ctx.add_obligation(name, status.get(n, False), n)
     phase["refute"] = round(time.time() - t_ph, 1)
     ctx.cov["refuted_in_kernel"] = sorted(name for _, (_, name, _) in refuted_files.items())
 
